@@ -664,7 +664,7 @@ struct gen
         return rs[i];
     }
 
-    bool use(const char *th) const { return profile == th || profile == "mix"; }
+    bool use(const char *th) const { return profile == th || profile == "mix" || (profile == "lrabig" && !strcmp(th, "lra")); }
 
     // one root-level creation step
     void create()
@@ -801,6 +801,11 @@ struct gen
         rdl_tps.clear();
         n_atoms = 0;
         const size_t dl_size = coin(70) ? 16 : 2; // a small initial matrix exercises its growth
+        if (profile == "lrabig")
+        { // larger linear systems (several rows per pivot): used for the sequential / parallel comparison only
+            max_sat = 40;
+            max_atoms = 16;
+        }
         begin_exec(profile, dl_size);
         net &n = *g_net;
         // --- setup ---
@@ -811,7 +816,7 @@ struct gen
             add_lit(last_ret() * 2 + 1);
         }
         if (use("lra"))
-            for (int i = 0, k = 1 + rnd(3); i < k; ++i)
+            for (int i = 0, k = (profile == "lrabig" ? 4 + rnd(3) : 1 + rnd(3)); i < k; ++i)
             {
                 run("{\"e\":\"lra_new_var\"}");
                 lra_vars.push_back((var)last_ret());
@@ -841,7 +846,7 @@ struct gen
                 for (size_t j = 0; j < ln["allows"].size(); ++j)
                     add_lit(ln["allows"][j].i());
             }
-        for (int i = 0, k = 3 + rnd(6); i < k && !n.dead; ++i)
+        for (int i = 0, k = (profile == "lrabig" ? 12 + rnd(8) : 3 + rnd(6)); i < k && !n.dead; ++i)
             create();
         // --- search ---
         int ops = 0;
